@@ -220,7 +220,15 @@ def exe(flavour, name, srcs, extra=(), link_lib=True, extra_repo_srcs=(), ldflag
             tmp = str(out) + ".tmp%d" % os.getpid()
             cmd = [CXX, "-o", tmp] + [str(o) for o in objs]
             if lib:
-                cmd += ["-L" + str(lib.parent), "-lmujoco_vf", "-Wl,-rpath," + str(lib.parent)]
+                # private copy (hard link) of the library next to the executable: garbage collection of the
+                # library cache can then never break an executable that a long run is still launching
+                own = d / "libmujoco_vf.so"
+                if not own.exists():
+                    try:
+                        os.link(lib, own)
+                    except OSError:
+                        shutil.copy2(lib, own)
+                cmd += ["-L" + str(d), "-lmujoco_vf", "-Wl,-rpath," + str(d)]
             cmd += [x for x in FLAVOURS[flavour]["link"] if x != "-shared-libasan"] + list(ldflags) + ["-lpthread", "-ldl", "-lm"]
             if flavour in ("asan", "fuzz") and lib:
                 cmd += ["-shared-libasan", "-Wl,-rpath," + asan_rt_dir()]
@@ -242,7 +250,7 @@ def asan_rt():
     return r.stdout.decode().strip()
 
 
-def _gc(d, keep=8, min_age_s=5400):
+def _gc(d, keep=12, min_age_s=6 * 3600):
     """Remove old build directories: keep the `keep` newest, and never remove one used in the last 90 min
     (other checks / mutant runs may still be executing against it)."""
     try:
